@@ -2,8 +2,9 @@
    Property theorems only (proofs in Storage/C02WriterProofs.v, C02Examples.v).
    Fault model (Storage/C02Writer.v, C25Fault.v): any block write of any flush may stop after
    any strict prefix of its bytes (0 = full reject) and fail, the in-place header update may
-   fail, the header update / fsync of a Sync or Close may fail; faults clear later; any number
-   of faults per history. ftruncate is assumed not to fail. *)
+   fail, the header update / fsync of a Sync or Close may fail, the truncation back after a
+   failed block write may fail too (once or repeatedly); faults clear later; any number of
+   faults per history. *)
 From HV Require Import Base.Prelude Storage.C02Fs Storage.C02Writer Storage.C02Crash
   Storage.C02Proofs Storage.C02WriterProofs Storage.C02Examples Storage.C25Fault.
 Local Open Scope N_scope.
@@ -59,6 +60,18 @@ Theorem C25_example_short_write_repaired :
   oks = [true; true; false; true; true].
 Proof. exact (conj ex_fault_hyps_ok ex_fault_repaired). Qed.
 Print Assumptions C25_example_short_write_repaired.
+
+(* Non-vacuity for the double fault "block write stops short AND the truncation back fails,
+   the next flush still cannot truncate": once the fault clears all four records are stored. *)
+Theorem C25_example_failed_truncation_repaired :
+  Forall api_ok ex_dirty_h /\
+  let '(f2, _, ops, oks) := w_run 0 fs_empty w_closed ex_dirty_h in
+  state_of (loaded_blocks true (dur f2)) = [(1, 10); (2, 20); (3, 30); (4, 40)] /\
+  oks = [true; true; false; false; true; true] /\
+  canon_log ops = [(1, 0); (2, 64); (2, 16); (2, 5); (3, 64); (2, 16); (2, 4);
+                   (4, 85); (2, 16); (2, 11); (3, 64); (3, 64); (5, 0); (6, 0)].
+Proof. exact (conj ex_dirty_hyps_ok ex_dirty_tail_repaired). Qed.
+Print Assumptions C25_example_failed_truncation_repaired.
 
 (* The writer before the repair (documentation of the fixed defect): the partial block stays
    in the middle of the file, nothing behind it can be read and the failed block's entry is
